@@ -6,6 +6,7 @@ CONSTANTS N = 3
           MaxChunks = 2
           Steps = {1000, 10000}
           NC = 2
-          CaseCap = 1500
+          N3 = 0
+          CaseCap = 1300
 INVARIANTS ProxySortedUnique ChainsDisjoint C04_OneSeriesPerLset C04_ExactWhenIdentical C04_Provenance OutIncreasing
 CHECK_DEADLOCK FALSE
